@@ -617,7 +617,8 @@ fn c11_cell(rng: &mut Rng, s: &str) -> String {
 
 pub fn c11_case(ctx: &mut Ctx, rng: &mut Rng) {
     // surfaces over an alphabet with commas, quotes, spaces and multi-byte text
-    let pool: Vec<char> = vec!['a', 'b', ',', '"', ' ', 'あ', '漢', '𠮷', 'é', 'x', '\'', ';', '#', '\\', '0', '-', '\t', '/', '*', '\u{3000}', '\\'];
+    // (a carriage return is data inside a quoted cell - `csv_cell` quotes such surfaces; outside it would end the row)
+    let pool: Vec<char> = vec!['a', 'b', ',', '"', ' ', 'あ', '漢', '𠮷', 'é', 'x', '\'', ';', '#', '\\', '0', '-', '\t', '/', '*', '\u{3000}', '\\', '\r'];
     // now and then hundreds of rows sharing one surface (a posting list longer than 255)
     let many_homographs = rng.chance(0.015);
     let n = if many_homographs { 256 + rng.below(60) } else { 1 + rng.below(14) };
@@ -649,7 +650,7 @@ pub fn c11_case(ctx: &mut Ctx, rng: &mut Rng) {
         let mut cells: Vec<String> = vec![];
         for c in 0..ncol {
             cells.push(match rng.below(9) {
-                8 => ["\"\\\"", "\"C:\\,D\"", "b\\"][rng.below(3)].into(),
+                8 => ["\"\\\"", "\"C:\\,D\"", "b\\", "\"c\rr\"", "\"\r\""][rng.below(5)].into(),
                 7 => "t\t".into(),
                 0 => "*".into(),
                 1 => format!("\"q,{i}\""),
